@@ -75,7 +75,7 @@ theorem mem_newFramebuffer {st : State} {w h bpp : Int} {tok : Nat} {d : Client}
         d.xlate = (if bpp != st.scr.bpp then (bpp, c.fmt) else c.xlate) ∧
         d.base.M = Region.rect 0 0 w h ∧ d.base.C = Region.empty ∧ d.base.dx = 0 ∧ d.base.dy = 0 ∧
         d.base.R = c.base.R ∧
-        d.pending = (if c.useNewFBSize then true else c.pending)) ∧
+        d.pending = (if c.useNewFBSize || VncModel.Gen.C16.pendingForAll then true else c.pending)) ∧
       (c.base.isOpen = false → d.xlate = c.xlate ∧ d.base = c.base ∧ d.pending = c.pending) := by
   simp only [newFramebuffer, List.mem_map] at hd
   obtain ⟨c, hc, rfl⟩ := hd
